@@ -54,8 +54,10 @@ class Acc:
         self.pairs = {}        # "optimizer|prototype|mode" -> [executions, failed]
 
     def add_exec(self, ex, finds):
-        self.execs += 1
-        self.transitions += ex.steps
+        self.execs += 1 + ex.extra.get('extra_execs', 0)
+        self.transitions += ex.steps + ex.extra.get('extra_steps', 0)
+        for h in ex.extra.get('extra_ends', ()):
+            self.ends.add(h)
         self.states.update(harness.state_hashes(ex))
         e = harness.h8(harness.canon_result(ex.result)) if ex.result is not None else 'exc:' + repr(ex.exc[:2])
         self.ends.add(e)
@@ -146,6 +148,10 @@ def _baseline(args):
     except HarnessError as e:
         acc.errors.append(f"{scn}: {e}")
         return job_id, acc, [], 0.0
+    except Exception as e:     # the machinery itself failed: reported as a harness error, never as a verdict
+        import traceback
+        acc.errors.append(f"{scn}: harness exception {type(e).__name__}: {e} | {traceback.format_exc()[-400:]}")
+        return job_id, acc, [], 0.0
     dt = time.process_time() - t0
     acc.cpu_s += dt
     devs = []
@@ -184,6 +190,9 @@ def _chunk(args):
             ex = _run_one(scn, dict(dev), acc, mons, expect=expect)
         except HarnessError as e:
             acc.errors.append(f"{scn} {dev}: {e}")
+            continue
+        except Exception as e:
+            acc.errors.append(f"{scn} {dev}: harness exception {type(e).__name__}: {e}")
             continue
         if len(acc.samples) < 1:
             acc.samples.append({'scenario': scn, 'choice_list': dev, 'draw_at_deviation': expect,
